@@ -155,3 +155,73 @@ def gen_coeff_keys(info):
 
 
 GENERATORS.append(gen_coeff_keys)
+
+
+def gen_clock(info):
+    """Clock-error tables (exact decimals) and the scan positions handed to the orbit model."""
+    import datetime as dt
+    from pygac import clock_offsets_converter as coc
+    from pygac import pod_reader
+    from pygac.gac_pod import GACPODReader
+    from pygac.lac_pod import LACPODReader
+    out = [HEADER, "namespace PygacModel.Generated\n"]
+    epoch = dt.datetime(1970, 1, 1)
+    tabs = []
+    for sat in sorted(coc.txt):
+        ts, es = [], []
+        for line in coc.txt[sat].split("\n"):
+            el = line.split()
+            for a, b, c in ((el[0], el[1], el[2]), (el[3], el[4], el[5])):
+                d = dt.datetime.strptime(a + b, "%y%j%H%M%S")
+                ts.append(int(round((d - epoch).total_seconds() * 1000)))
+                es.append(Fraction(c))
+        # cross-check with the function the reader calls
+        gt, ge = coc.get_offsets(sat)
+        assert [int(round((d - epoch).total_seconds() * 1000)) for d in gt] == ts
+        assert [float(e) for e in es] == list(ge)
+        tabs.append((sat, ts, es))
+    info["clock_tables"] = {s: len(t) for s, t, _ in tabs}
+    out.append("/-- (spacecraft, table times in ms since 1970, clock errors in s) -/\n")
+    out.append("def clockTables : List (String × List Int × List Rat) := %s\n" % llist(
+        ["(%s, %s, %s)" % (lstr(s), llist([lint(t) for t in ts], per_line=8, indent="    "),
+                           llist([lrat(e) for e in es], per_line=6, indent="    ")) for s, ts, es in tabs]))
+    out.append("def podSpacecraftNames : List String := %s\n" % llist(
+        [lstr(n) for n in sorted(pod_reader.PODReader.spacecraft_names.values())], per_line=9))
+
+    class _Captured(Exception):
+        pass
+
+    cap = {}
+
+    def fake(scan_times, scan_points, *a, **kw):
+        cap["points"] = [Fraction(float(x)) for x in np.asarray(scan_points, dtype=float)]
+        cap["frequency"] = kw.get("frequency", a[1] if len(a) > 1 else None)
+        raise _Captured()
+
+    orig = pod_reader.avhrr_gac
+    pod_reader.avhrr_gac = fake
+    try:
+        for cname, cls in (("Gac", GACPODReader), ("Lac", LACPODReader)):
+            r = cls()
+            r.lats = np.zeros((1, 51))
+            try:
+                r._compute_missing_lonlat(np.array(["2000-01-01T00:00:00.000"], dtype="datetime64[ms]"))
+            except _Captured:
+                pass
+            pts = cap.get("points", [])
+            info["drift_scan_points_" + cname] = [float(p) for p in pts]
+            out.append("/-- scan positions (2048-sample frame) handed to the orbit model for recomputed %s lines -/\n" % cname)
+            out.append("def driftScanPoints%s : List Rat := %s\n" % (cname, llist([lrat(p) for p in pts], per_line=8)))
+            fr = Fraction(repr(float(cap.get("frequency")))).limit_denominator(10 ** 9)
+            out.append("def driftFrequency%s : Rat := %s\n" % (cname, lrat(fr)))
+            # the reader's own table of pixel positions
+            sp = [Fraction(float(x)) for x in np.asarray(r.scan_points, dtype=float)]
+            out.append("def scanPointsHead%s : List Rat := %s\n" % (cname, llist([lrat(p) for p in sp[:6]], per_line=6)))
+            out.append("def scanPointsLen%s : Nat := %d\n" % (cname, len(sp)))
+    finally:
+        pod_reader.avhrr_gac = orig
+    out.append("end PygacModel.Generated\n")
+    return "Clock.lean", "".join(out)
+
+
+GENERATORS.append(gen_clock)
